@@ -67,6 +67,14 @@ func threshold(t *rapid.T, vals []float64) float64 {
 
 func genCase(t *rapid.T, thorough bool) Case {
 	m := gen.Tree(t, treeOpts(t, thorough))
+	if rapid.IntRange(0, 4).Draw(t, "negative") == 2 {
+		// slightly negative lengths, as distance methods produce them (never -1, gotree's "no length")
+		for _, x := range m.All()[1:] {
+			if x.Len != nil && rapid.IntRange(0, 3).Draw(t, "neghere") == 0 {
+				x.Len = ref.F(rapid.SampledFrom([]float64{-0.0021, -0.5, -1e-9, -3}).Draw(t, "negval"))
+			}
+		}
+	}
 	c := Case{Tree: m, Kind: rapid.SampledFrom([]string{"length", "support", "depth"}).Draw(t, "kind"),
 		RemoveRoot: rapid.Bool().Draw(t, "rr"), RemoveTips: rapid.Bool().Draw(t, "rt")}
 	if rapid.IntRange(0, 2).Draw(t, "rerootfirst") == 0 {
@@ -281,7 +289,7 @@ func pf(p *float64) string {
 func TestC07Collapse(t *testing.T) {
 	h.Run(t, h.Spec[Case]{
 		Property: "C07", Name: "collapse", Quick: 24000, Thorough: 1200000,
-		Rule:  "trees (3..12 tips, 5% up to 40/200; lengths none/all/mixed incl. zeros; supports mixed/all or inner names) x {length, support, depth} x thresholds drawn from {present value, midpoint of two, below min, above max, 0, negative} / depth intervals incl. empty x removeRoot x removeTips; oracle = exact clade-set algebra with the documented predicates (length<=l, support present and <s, min<=depth<=max), attributes of kept clades; non-trivial = >=1 branch collapsed and >=1 inner branch kept",
+		Rule:  "trees (3..12 tips, 5% up to 40/200; lengths none/all/mixed incl. zeros, one tree in five with some negative lengths; supports mixed/all or inner names) x {length, support, depth} x thresholds drawn from {present value, midpoint of two, below min, above max, 0, negative} / depth intervals incl. empty x removeRoot x removeTips; oracle = exact clade-set algebra with the documented predicates (length<=l, support present and <s, min<=depth<=max), attributes of kept clades; non-trivial = >=1 branch collapsed and >=1 inner branch kept",
 		Gen:   genCase,
 		Check: check,
 		Classify: func(c Case) (bool, []string) {
